@@ -9,6 +9,7 @@
 -/
 import Lemmas.World
 import Lemmas.WorldInv
+import Lemmas.WorldAdj
 namespace C01
 open BestPath World
 
@@ -27,17 +28,15 @@ theorem delta_correct (g : Global) (t : PeerCfg) (hrs : t.isRSClient = false)
     heldApply (wantOf g t oldL) (deltaFor g t oldL newL) = wantOf g t newL :=
   World.delta_correct g t hrs oldL newL wfO wfEq
 
-/-- the speaker before anything happened: configured peers, all sessions down, empty Loc-RIB -/
-def init (g : Global) (cfgs : List PeerCfg) : W :=
-  { g := g, peers := cfgs.map (fun c => { cfg := c }) }
-
 /-- **C01_quiescent.** For every configuration of peers with pairwise different neighbour
     addresses and every history of session up / session down (non-graceful) / announcement /
-    replacement / withdrawal events (each event = one lock-protected region of the Go code, with
-    the queued output applied): every established peer that is not a route-server client holds,
-    for EVERY destination, exactly the export of the current best path — the route an initial
-    table transfer would send now. Nothing that left the Loc-RIB stays advertised, no exportable
-    best path is missing. By induction over the history with the invariant `World.Inv`;
+    replacement / withdrawal / locally injected route (AddPath, DeletePath) / AddPeer /
+    DeletePeer events (each event = one lock-protected region of the Go code, with the queued
+    output applied): every established peer that is not a route-server client holds, for EVERY
+    destination, exactly the export of the current best path — the route an initial table
+    transfer would send now. Nothing that left the Loc-RIB stays advertised, no exportable best
+    path is missing. By induction over the history with the invariant `World.FullInv`
+    (`World.Inv` for the views, `World.AdjOK` so that a deleted peer leaves nothing behind);
     the per-step heart is `delta_correct`. -/
 theorem C01_quiescent (g : Global) (cfgs : List PeerCfg)
     (haddr : cfgs.Pairwise (fun a b => a.addr ≠ b.addr))
@@ -47,16 +46,7 @@ theorem C01_quiescent (g : Global) (cfgs : List PeerCfg)
     ∀ ps ∈ w.peers, ps.up = true → ps.cfg.isRSClient = false →
       ∀ pfx, heldOf ps.view pfx = wantOf w.g ps.cfg (w.ribOf pfx) := by
   intro w
-  have h0 : Inv (init g cfgs) := by
-    refine ⟨⟨?_, ?_⟩, List.Pairwise.nil, ?_, ?_⟩
-    · simp only [init, List.pairwise_map]; exact haddr
-    · simp only [init, List.pairwise_map]; exact hidx
-    · intro e he; cases he
-    · intro ps hps hup
-      simp only [init, List.mem_map] at hps
-      obtain ⟨c, _, rfl⟩ := hps
-      cases hup
-  exact (run_inv (init g cfgs) ops h0).views
+  exact (run_full (init g cfgs) ops (init_full g cfgs haddr hidx)).inv.views
 
 /-- the export decision in closed form (loop prevention): see `exportableF` -/
 theorem export_rule (g : Global) (t : PeerCfg) (r : Cand) :
@@ -111,5 +101,18 @@ example : ((hist.take 4).foldl step (init g0 [nonClient, client, other])).peers.
     = [some 1, none, some 1] := by decide
 example : (hist.foldl step (init g0 [nonClient, client, other])).peers.map (fun ps => heldOf ps.view 7)
     = [none, some 2, none] := by decide
+
+/-- the same world with a locally injected route, a peer added at run time and the deletion of
+    the peer whose route was best: the survivors are told the next best, and the local route
+    (AS_PATH empty) goes to everybody -/
+def late : PeerCfg := { idx := 3, kind := .ebgp, as := 65100, rid := 13, addr := 103 }
+def hist2 : List WOp :=
+  hist ++ [.add late, .up 3,
+    .localAdd { (default : Cand) with pfx := 9, marker := 5, origin := some 0 },
+    .del 2]
+
+example : (hist2.foldl step (init g0 [nonClient, client, other])).peers.map
+    (fun ps => (ps.cfg.idx, heldOf ps.view 7, heldOf ps.view 9))
+    = [(0, some 1, some 5), (1, none, some 5), (3, some 1, some 5)] := by decide
 
 end C01
